@@ -12,10 +12,11 @@ Sources (pinned tree):
 * `overlap_interpolate(VectorWithOffset&, const VectorWithOffset&, zoom, offset, assign_rest_with_zeroes)`:
   src/buildblock/overlap_interpolate.cxx:100-313 (`overlapVec`);
 * iterator `overlap_interpolate`: src/include/stir/numerics/overlap_interpolate.inl:22-157 (`overlapIter`);
-* `zoom_image` family: src/buildblock/zoom.cxx:212-478 (`newImageFromZoom`, `zoomImage3`, `zoomImage2`, `zoomImagePlanes`);
+* `zoom_image` family: src/buildblock/zoom.cxx:212-478 (`newGridFromZoom`, `zoomImage3`, `zoomImage2`, `zoomImageParams3`, `zoomImageParams2`);
+* `zoom_viewgram` (both overloads), `zoom_viewgrams`: src/buildblock/zoom.cxx:97-210 (`zoomViewgramOffset`, `zoomViewgram`, `zoomViewgramInPlace`);
 * `find_centre_of_gravity_in_mm`: src/buildblock/centre_of_gravity.cxx:32-128 (`cogMm`);
-* `inverse_SSRB`: src/buildblock/inverse_SSRB.cxx:33-131 (`inverseSsrbWeights`);
-* `extend_segment`: src/buildblock/extend_projdata.cxx:36-150 (`extendSegment`).
+* `inverse_SSRB`: src/buildblock/inverse_SSRB.cxx:33-131 (`inverseSsrbCompatible`, `inverseSsrbWeights`, `inverseSsrbSino`);
+* `extend_segment`: src/buildblock/extend_projdata.cxx:36-150 (`extendModeK`, `extendSegment`).
 
 The ring pair ↔ (segment, axial position) and detector pair → bin model is the one of C01 (`StirVerif.C01.Seg`,
 `Geom.binForDetPair`, …), imported, not copied, so that the C01 theorems apply.
@@ -514,12 +515,50 @@ def zoomImageParams3 (im : Img) (zz zy zx offz offy offx : Rat) (nz ny nx : Int)
   let g := newGridFromZoom im.g zz zy zx offz offy offx nz ny nx
   ⟨g, zoomImage3 g im opt⟩
 
-/-- `zoom_image(image, zoom, x_offset_in_mm, y_offset_in_mm, new_size, options)` (zoom.cxx:275-303): plane by plane -/
+/-- `zoom_image(image, zoom, x_offset_in_mm, y_offset_in_mm, new_size, options)` (zoom.cxx:275-303): plane by plane.
+    Plane numbering: the new image has the planes `0 … nz-1` (`newGridFromZoom`; its z-origin puts plane `k` at the physical position of
+    input plane `zmin + k`), and plane `k` of the result is the zoomed input plane `zmin + k`.  The source at the pinned revision stores
+    the zoomed input plane `p` with `new_image.set_plane(…, p)`, i.e. under the *input's* plane number: the same thing when `zmin = 0`,
+    an access outside the new image (undefined behaviour, not modelled) otherwise; the harness runs that call in a child process and its
+    oracle reports it (repair: build/fixes/C15-3.diff).  The early return ignores the y size (as the source does). -/
 def zoomImageParams2 (im : Img) (zoom xoff yoff : Rat) (newSize : Int) (opt : ZoomOpt) : Img :=
   if zoom == 1 ∧ xoff == 0 ∧ yoff == 0 ∧ newSize == im.g.nx then im
   else
     let g := newGridFromZoom im.g 1 zoom zoom 0 yoff xoff im.g.nz newSize newSize
     ⟨g, im.d.map fun pl => zoomImage2 g im.g pl opt⟩
+
+/-! ## `zoom_viewgram` / `zoom_viewgrams` (zoom.cxx:97-210): arc-corrected viewgrams, tangential direction
+
+A viewgram is a list of rows (one per axial position) over the tangential positions `lo … lo+n-1`; every row is zoomed by the same
+1-D `overlap_interpolate`, so the one-axis theorems `C15_zoom_axis_*` are statements about each row. -/
+
+/-- offset in units of the input's tangential sampling (zoom.cxx:201-204):
+    `(x_offset_in_mm*cos(phi) + y_offset_in_mm*sin(phi)) / in_bin_size`, `c = cos phi`, `s = sin phi` of the view
+    (the result is stored in a `float`; the roundings of the intermediate operations are bounded by the driver, not modelled) -/
+def zoomViewgramOffset (xoff yoff c s inBin : Rat) : Rat := fl32 ((xoff * c + yoff * s) / inBin)
+
+/-- `zoom_viewgram(Viewgram& out_view, const Viewgram& in_view, x_offset_in_mm, y_offset_in_mm)` (zoom.cxx:169-210).
+    `out_view` has the tangential positions `outLo … outLo+outN-1` and tangential sampling `outBin`; `rows` are the rows of `in_view`
+    (first tangential position `inLo`, sampling `inBin`).  The documented contract is "zoom in_viewgram, replacing out_viewgram with
+    the new data".  In the identity case (same range, zoom 1, no offsets) the source at the pinned revision `return`s *without*
+    copying `in_view` into `out_view` (zoom.cxx:196-199; `zoom_image` does `image_out = image_in` in the same place): the model states
+    the documented behaviour (the copy), which is what `overlap_interpolate` itself does for the identity request; the harness oracle
+    reports the difference on the implementation (repair: build/fixes/C15-1.diff). -/
+def zoomViewgram (outLo : Int) (outN : Nat) (inLo : Int) (rows : List (List Rat)) (inBin outBin xoff yoff c s : Rat) :
+    List (List Rat) :=
+  let zoom := fl32 (inBin / outBin)
+  if outLo == inLo ∧ rows.all (fun r => r.length == outN) ∧ zoom == 1 ∧ xoff == 0 ∧ yoff == 0 then rows
+  else rows.map (ovl outLo outN inLo zoom (zoomViewgramOffset xoff yoff c s inBin))
+
+/-- `zoom_viewgram(Viewgram& in_view, zoom, min_tang_pos_num, max_tang_pos_num, x_offset_in_mm, y_offset_in_mm)` (zoom.cxx:137-167)
+    and, viewgram by viewgram (each with the `phi` of its own view), `zoom_viewgrams(RelatedViewgrams&, …)` (zoom.cxx:97-135):
+    new first tangential position, new tangential sampling `in_bin/zoom` (a float division) and the new rows. -/
+def zoomViewgramInPlace (zoom : Rat) (minT maxT inLo : Int) (rows : List (List Rat)) (inBin xoff yoff c s : Rat) :
+    Int × Rat × List (List Rat) :=
+  if minT == inLo ∧ rows.all (fun r => maxT == inLo + r.length - 1) ∧ zoom == 1 ∧ xoff == 0 ∧ yoff == 0 then (inLo, inBin, rows)
+  else
+    let outBin := fl32 (inBin / zoom)
+    (minT, outBin, zoomViewgram minT (maxT - minT + 1).toNat inLo rows inBin outBin xoff yoff c s)
 
 /-! ## `find_centre_of_gravity_in_mm` (centre_of_gravity.cxx:32-128) -/
 
@@ -568,6 +607,24 @@ def inverseSsrbWeights (ms : List Rat) (outM : Rat) (tol : Rat) : Option (List (
         else go fuel (a + 1)
   go n 0
 
+/-- the compatibility guards of `inverse_SSRB` (inverse_SSRB.cxx:40-51): `false` = `Succeeded::no`.  The source at the pinned revision
+    compares `get_min_view_num()` (and `get_min_tangential_pos_num()`) twice, so that the maxima are never looked at: data with another
+    number of views / tangential positions but the same first index are accepted and views of other azimuthal angles are added together.
+    The model states the intended guard (first and last view, first and last tangential position agree; repair: build/fixes/C15-2.diff). -/
+def inverseSsrbCompatible (minV3 maxV3 minT3 maxT3 minV4 maxV4 minT4 maxT4 : Int) : Bool :=
+  minV3 == minV4 && maxV3 == maxV4 && minT3 == minT4 && maxT3 == maxT4
+
+/-- one output sinogram of `inverse_SSRB` bin by bin: `sinos[a]` = the bins (any fixed order) of the direct sinogram at axial position `a`
+    of the same TOF position; copy (`sino_4D += sino_3D_1` into zeros) or `sapyb` of the two selected sinograms -/
+def inverseSsrbSino (ms : List Rat) (outM tol : Rat) (sinos : List (List Rat)) : Option (List Rat) :=
+  match inverseSsrbWeights ms outM tol with
+  | none => none
+  | some ws =>
+    match ws with
+    | [(a, _)] => some (sinos.getD a [])
+    | [(a, wa), (b, wb)] => some (List.zipWith (fun x y => wa * x + wb * y) (sinos.getD a []) (sinos.getD b []))
+    | _ => none
+
 /-! ## `extend_segment` (extend_projdata.cxx:36-150) -/
 
 /-- a 3-D array `[axial][view][tang]` with its first indices -/
@@ -586,12 +643,17 @@ def Arr3.set (x : Arr3) (a v t : Int) (q : Rat) : Arr3 :=
   { x with d := x.d.modify i (fun pl => pl.modify j (fun row => row.set! k q)) }
 
 /-- view handling: 0 = wrap around (360°), 1 = wrap with tangential flip (180°, segment 0), 2 = nearest neighbour.
-    `numViews` views covering `(numViews-1)·π/numViews`; the source compares with 2π and π within 5 samplings. -/
-def extendMode (numViews segNum : Int) : Nat :=
+    `numViews` views with azimuthal sampling `k·π/numViews`, `k = kn/kd > 0` (`k = 1`: the 180° of PET data, `k = 2`: 360° as for SPECT),
+    i.e. `phi_range = (numViews-1)·k·π/numViews`; the source compares `|phi_range − 2π|` and `|phi_range − π|` with 5 samplings
+    (extend_projdata.cxx:73-86); both sides multiplied by `numViews·kd/π` here.  (Equality is decided by float rounding in the source: not generated.) -/
+def extendModeK (numViews segNum kn kd : Int) : Nat :=
   if numViews < 2 then 2          -- 0/0 sampling: every comparison is false
-  else if numViews + 1 < 5 then 0 -- |range - 2π| < 5·sampling  ⇔  (V+1)·π/V < 5·π/V
-  else if segNum == 0 then 1
+  else if ((numViews - 1) * kn - 2 * numViews * kd).natAbs < (5 * kn).natAbs then 0
+  else if ((numViews - 1) * kn - numViews * kd).natAbs < (5 * kn).natAbs ∧ segNum == 0 then 1
   else 2
+
+/-- the PET case `k = 1`: `|range − 2π| < 5·sampling ⇔ numViews + 1 < 5` -/
+def extendMode (numViews segNum : Int) : Nat := extendModeK numViews segNum 1 1
 
 def extendSegment (seg : Arr3) (na nv nt : Nat) (ve ae te : Int) (mode : Nat) : Arr3 :=
   let min1 := seg.a0 - ae
